@@ -1,8 +1,10 @@
 use mc::rgen;
 fn main() {
-    let (v, st) = rgen::values_ex(rgen::Tier::Compact);
+    let (v, st) = rgen::values_ex(rgen::Tier::Quick);
     println!("{} values", v.len());
     println!("{:?}", st.generated);
-    println!("refused {:?} anomalies {:?}", st.refused, st.anomalies);
-    for x in v.iter().take(2000) { println!("{} {} {} names={:?} wire={}", x.mnemonic, x.rtype, x.desc, x.names, mc::hex(&x.wire)); }
+    let tot: usize = v.iter().map(|x| x.wire.len()).sum();
+    println!("total wire {}", tot);
+    let s: u64 = st.generated.values().map(|n| n*n).sum();
+    println!("sum n^2 = {}", s);
 }
